@@ -278,8 +278,10 @@ def run(ck, sq, Event, histories, replay_obj, quick):
             ck.disagreement("state-model", f"{r.name}: the driver could not decode the case", replay_obj(r))
             continue
         bad = compare(r, o)
-        for b in bad[:3]:
-            ck.disagreement("state-model", f"{r.name}: {b}", replay_obj(r, {"disagreement": b}))
+        if bad:
+            ck.count("state:histories-disagreeing")
+            if ck.dist["state:histories-disagreeing"] <= 4:      # leave room for the other streams' reports
+                ck.disagreement("state-model", f"{r.name}: {bad[0]}", replay_obj(r, {"disagreements": bad[:3]}))
     ck.assumptions.append(
         "state stream: every crash point observed (before every write statement, after every commit step, after "
         "every call) of " + ("the deterministic corpus and of the random histories" if not quick else
